@@ -45,12 +45,14 @@ type pipe struct {
 
 // Conn is a simulated stream connection.
 type Conn struct {
-	ID      int
-	Network string
-	Addr    string
-	Client  *Endpoint
-	Server  *Endpoint
-	DialSeq uint64
+	ID       int
+	Network  string
+	Addr     string
+	Client   *Endpoint
+	Server   *Endpoint
+	DialSeq  uint64
+	DialAt   time.Duration
+	DialedBy string
 	// AcceptSeq is the kernel sequence number at which Accept handed the
 	// server end to the service (0 = never accepted).
 	AcceptSeq uint64
@@ -131,8 +133,24 @@ type Listener struct {
 	// LastTimeoutOpen is the number of accepted connections whose server end was open at the last expiry.
 	TimeoutLog []TimeoutRec
 
+	// BoundBy / ClosedBy are the ids of the tasks that bound / closed the listener.
+	BoundBy  string
+	ClosedBy string
+	// ClosedWhileAccepting: Close found a task blocked in Accept, which had been blocked since AcceptSinceAtClose.
+	ClosedWhileAccepting bool
+	AcceptSinceAtClose   uint64
+	// AcceptLog records every Accept call (sequence number and simulated time).
+	AcceptLog []AcceptRec
+	Dialed    int
+
 	hadTimeout   bool
 	sigAtTimeout uint64
+}
+
+// AcceptRec is one call of Accept.
+type AcceptRec struct {
+	Seq uint64
+	At  time.Duration
 }
 
 // TimeoutRec describes one accept-deadline expiry returned to the caller.
@@ -205,7 +223,7 @@ func (k *Kernel) apply(t *Task) {
 	}
 	if k.closing {
 		switch r.op {
-		case opStart, opYield, opRelease, opRecord, opCtxNew, opCtxCancel:
+		case opStart, opYield, opRelease, opRecord, opCtxNew, opCtxCancel, opChoose, opEval:
 		case opAcquire, opTryAcquire:
 		case opSpawn:
 		default:
@@ -286,6 +304,14 @@ func (k *Kernel) apply(t *Task) {
 	case opSetPolicy:
 		r.ep.ReadPolicy = r.n
 		k.complete(t, result{})
+	case opChoose:
+		k.sites[r.site] = struct{}{}
+		k.Count("select_choices")
+		k.complete(t, result{n: k.Draw(r.n)})
+	case opEval:
+		c := r.cond
+		c.S1, c.S2 = cloneString(c.S1), cloneString(c.S2)
+		k.complete(t, result{ok: k.condHolds(c), n: k.condCount(c)})
 	default:
 		panic("sim: unknown op")
 	}
@@ -379,7 +405,7 @@ func (k *Kernel) listen(t *Task, network, addr string) {
 		k.complete(t, result{err: eAddrInUse})
 		return
 	}
-	l := &Listener{ID: len(k.Listeners), Network: network, Address: addr, BindSeq: k.step}
+	l := &Listener{ID: len(k.Listeners), Network: network, Address: addr, BindSeq: k.step, BoundBy: t.id}
 	k.ns[key] = l
 	k.Listeners = append(k.Listeners, l)
 	k.trace("listen L%d %s %s", l.ID, network, addr)
@@ -395,6 +421,9 @@ func (k *Kernel) dial(t *Task, network, addr string) {
 		return
 	}
 	c := k.newConn(l)
+	c.DialAt = k.Elapsed()
+	c.DialedBy = t.id
+	l.Dialed++
 	l.backlog = append(l.backlog, c.Server)
 	k.trace("dial c%d -> L%d", c.ID, l.ID)
 	k.complete(t, result{ep: c.Client})
@@ -436,6 +465,7 @@ func (k *Kernel) handOver(t *Task, l *Listener) {
 
 func (k *Kernel) accept(t *Task, l *Listener) {
 	l.AcceptCalls++
+	l.AcceptLog = append(l.AcceptLog, AcceptRec{k.step, k.Elapsed()})
 	if l.Closed {
 		k.complete(t, result{err: eClosed})
 		return
@@ -504,6 +534,11 @@ func (k *Kernel) lnClose(t *Task, l *Listener) {
 	l.Closed = true
 	l.CloseSeq = k.step
 	l.CloseAt = k.Elapsed()
+	l.ClosedBy = t.id
+	if l.acceptor != nil {
+		l.ClosedWhileAccepting = true
+		l.AcceptSinceAtClose = l.AcceptSince
+	}
 	k.trace("close L%d", l.ID)
 	if k.ns[nsKey(l.Network, l.Address)] == l {
 		delete(k.ns, nsKey(l.Network, l.Address))
@@ -965,6 +1000,12 @@ const (
 	CondAcceptCalls
 	// CondBound: a listener is bound to (S1,S2).
 	CondBound
+	// CondLogged: at least N events of kind S1 are in the observation log.
+	CondLogged
+	// CondAccepted: at least N connections have been accepted on listeners of (S1,S2).
+	CondAccepted
+	// CondDialed: at least N connections have been dialled to (S1,S2).
+	CondDialed
 )
 
 // Cond is a data-only condition (no closures cross the kernel boundary).
@@ -980,8 +1021,42 @@ type awaiter struct {
 	c Cond
 }
 
+// condCount is the number the N of a counting condition is compared with.
+func (k *Kernel) condCount(c Cond) int {
+	n := 0
+	switch c.Kind {
+	case CondLogged:
+		for i := range k.Log {
+			if k.Log[i].Kind == c.S1 {
+				n++
+			}
+		}
+	case CondAccepted:
+		for _, l := range k.Listeners {
+			if l.Network == c.S1 && l.Address == c.S2 {
+				n += len(l.Accepted)
+			}
+		}
+	case CondDialed:
+		for _, cn := range k.Conns {
+			if cn.Network == c.S1 && cn.Addr == c.S2 {
+				n++
+			}
+		}
+	case CondAcceptCalls:
+		for _, l := range k.Listeners {
+			if l.Network == c.S1 && l.Address == c.S2 {
+				n += l.AcceptCalls
+			}
+		}
+	}
+	return n
+}
+
 func (k *Kernel) condHolds(c Cond) bool {
 	switch c.Kind {
+	case CondLogged, CondAccepted, CondDialed:
+		return k.condCount(c) >= c.N
 	case CondAcceptBlocked:
 		l := k.ns[nsKey(c.S1, c.S2)]
 		return l != nil && l.AcceptBlocked
@@ -1219,6 +1294,16 @@ func Step(site string) {
 // Await blocks until the condition holds.
 func Await(c Cond) {
 	mustSelf().syscall(request{op: opAwait, cond: c})
+}
+
+// Holds evaluates a condition without blocking (a scheduling point).
+func Holds(c Cond) bool {
+	return mustSelf().syscall(request{op: opEval, cond: c}).ok
+}
+
+// Count evaluates the count behind a counting condition (a scheduling point).
+func Count(c Cond) int {
+	return mustSelf().syscall(request{op: opEval, cond: c}).n
 }
 
 // Rec appends an observation to the run's log and returns its sequence number.
